@@ -31,7 +31,7 @@ COMPONENTS = {"real": ["setigen.slice.get_slice", "setigen.dedrift.dedrift", "se
               "stub": ["SimClock with jumps", "RefSigproc writer", "entropy seam"]}
 ASSUMPTIONS = ["slice bounds 0 <= l < r <= fchans, also spelled from the end of the band (negative)", "a de-drift row whose offset lies within 1e-9 of a rounding boundary is not judged, unless the offset is exactly k + 1/2 in every evaluation order (then round() means half to even)",
                "axes compared within 8 ulp of the largest frequency / time"]
-PROBES = ["dedrift_of_consolidated_frame_with_gaps", "slice_bounds_counted_from_the_end", "dedrift_exact_half_channel_tie", "parent_loaded_float32", "parent_has_waterfall", "derived_of_derived", "dedrift_negative", "dedrift_from_metadata",
+PROBES = ["more_than_64_distinct_rates_in_one_process", "dedrift_of_consolidated_frame_with_gaps", "slice_bounds_counted_from_the_end", "dedrift_exact_half_channel_tie", "parent_loaded_float32", "parent_has_waterfall", "derived_of_derived", "dedrift_negative", "dedrift_from_metadata",
           "dedrift_rejected_too_steep", "clock_jump", "spectrum_frame", "timeseries_frame", "dedrift_peak_checked", "normalised"]
 
 
@@ -88,6 +88,14 @@ def generate(rng, tier):
             ops.append({"op": "spectrum", "parent": parent, "mode": rng.choice(["mean", "sum"]), "normalize": rng.random() < 0.2})
         else:
             ops.append({"op": "timeseries", "parent": parent, "mode": rng.choice(["mean", "sum"]), "normalize": rng.random() < 0.2})
+    if rng.random() < (0.06 if tier == "quick" else 0.12):
+        # SCALE: a de-Doppler search - one rate, then a grid of many other trial rates on the same frame, then the first
+        # rate again (anything memoised per rate or geometry with a bounded size only goes wrong after it wraps)
+        a = {"op": "dedrift", "parent": 0, "mode": "rate", "px": rng.choice([0.4, 1.0, -1.0, 2.3, -0.6, 0.25]), "sign": 1}
+        ops.extend([a, {"op": "trial_grid", "parent": 0, "n": rng.choice([70, 100, 130, 200]), "step": rng.choice([0.011, 0.0173, 0.05]),
+                        "sign": rng.choice([1, -1])}, dict(a)])
+        if rng.random() < 0.5:
+            ops.append(dict(a, px=-a["px"]))
     return {"seams": {"clock_origin": 1.7e9 + rng.randrange(10 ** 6), "clock_jitter_seed": rng.randrange(1 << 20),
                       "entropy_salt": rng.randrange(1 << 20), "scratch": "c17"},
             "root": spec, "pre": pre, "ops": ops, "drift_px": drift_px,
@@ -227,6 +235,31 @@ def execute(sc, ctx):
                     lambda: "fs[0] %r, parent fs[l] %r (l=%d r=%d)" % (child.fs[0], pfs[l], l, r))
                 ok &= ctx.check(_axis_ok(child.ts, pts, pts[-1] if len(pts) else 1.0), "slice", "C17/slice/time_axis_changed", "")
                 ok &= _common(ctx, "slice", parent, child, info)
+            elif kind == "trial_grid":
+                unit = parent.df / parent.dt
+                done = 0
+                for k in range(op["n"]):
+                    eff = op["sign"] * (op["step"] * (k + 1) + 0.003) * unit
+                    mo = int(np.round(abs(eff) * parent.tchans * parent.dt / parent.df))
+                    if mo >= n - 1 or tie_class(eff, parent.tchans, parent.dt, parent.df) != "clear":
+                        continue
+                    ch = stg.dedrift(parent, drift_rate=eff)
+                    done += 1
+                    W = n - mo
+                    if not ctx.check(ch.data.shape == (parent.tchans, W), "dedrift", "C17/dedrift/trimmed_width/in_trial_grid",
+                                     lambda: "trial %d: width %d, want %d" % (k, ch.data.shape[1], W)):
+                        return
+                    for i in range(parent.tchans):
+                        if tie_class(eff, i, parent.dt, parent.df) != "clear":
+                            continue
+                        off = int(np.round(abs(eff) * i * parent.dt / parent.df))
+                        want = pdata[i, off:off + W] if eff >= 0 else pdata[i, n - off - W:n - off]
+                        if not ctx.check(np.array_equal(ch.data[i], want, equal_nan=True), "dedrift", "C17/dedrift/row_shift/in_trial_grid",
+                                         lambda: "trial %d row %d: not the parent's row shifted by %d channels" % (k, i, off)):
+                            return
+                if done > 64:
+                    ctx.hit("more_than_64_distinct_rates_in_one_process")
+                continue
             elif kind == "dedrift":
                 unit = parent.df / parent.dt
                 mode = op["mode"]
